@@ -902,3 +902,52 @@ TWINS["C09"] = [
     TW("discount-commuted",
        (GA, "torch.eye(crossprod, dtype=dtype) - pomdp.discount_rate * Tmu.view((crossprod, crossprod))", "torch.eye(crossprod, dtype=dtype) - Tmu.view((crossprod, crossprod)) * pomdp.discount_rate")),
 ]
+
+# ----------------------------------------------------------------------------------- C16
+MC = A + "multichainpolicyiteration.py"
+MUTANTS["C16"] = [
+    M("converged-always-true", ["BEL-5"],
+      (MC, "converged=iterations < (self.max_iterations - 1),", "converged=iterations < self.max_iterations,")),
+    M("gain-bias-crossed", ["IFC-4b"],
+      (MC, "state_gain, action_gain, state_bias, action_bias, _, iterations = results", "state_bias, action_gain, state_gain, action_bias, _, iterations = results")),
+    M("return-order-changed", ["IFC-4b"],
+      (MC, "    return gain, gain_q, bias, bias_q, policy, i", "    return gain, bias_q, bias, gain_q, policy, i")),
+    M("value-field-from-gain", ["IFC-4b"],
+      (MC, "            state_value=state_bias,", "            state_value=state_gain,")),
+    M("initial-value-from-gain", ["IFC-4b"],
+      (MC, "initial_value=sum(state_bias[s]*p for s, p in mdp.initial_state_dist().items()),", "initial_value=sum(state_gain[s]*p for s, p in mdp.initial_state_dist().items()),")),
+    M("reward-mask-dropped", ["BEL-1"],
+      (MC, "    sa_rf[absorbing_state_vec] = 0\n", "")),
+    M("chain-mask-dropped", ["BEL-1"],
+      (MC, "        mp[absorbing_state_vec] = 0\n", "")),
+    M("chain-undiscounted", ["BEL-2"],
+      (MC, "mp = discount_rate*transition_matrix[ss_range, policy]", "mp = transition_matrix[ss_range, policy]")),
+    M("gain-backup-discounted", ["BEL-2"],
+      (MC, 'gain_q = np.einsum("san,n->sa", transition_matrix, gain) + action_penalty', 'gain_q = discount_rate*np.einsum("san,n->sa", transition_matrix, gain) + action_penalty')),
+    M("bias-backup-undiscounted", ["BEL-2"],
+      (MC, 'bias_q = sa_rf + discount_rate*np.einsum("san,n->sa", transition_matrix, bias) + action_penalty', 'bias_q = sa_rf + np.einsum("san,n->sa", transition_matrix, bias) + action_penalty')),
+    M("bias-penalty-dropped", ["BEL-4"],
+      (MC, 'bias_q = sa_rf + discount_rate*np.einsum("san,n->sa", transition_matrix, bias) + action_penalty', 'bias_q = sa_rf + discount_rate*np.einsum("san,n->sa", transition_matrix, bias)')),
+    M("policy-gain-only", ["BEL-4"],
+      (MC, "policy_matrix = gain_max_actions & bias_max_actions", "policy_matrix = gain_max_actions")),
+    M("einsum-transposed", ["TEN-1", "TEN-2"],
+      (MC, 'gain_q = np.einsum("san,n->sa", transition_matrix, gain) + action_penalty', 'gain_q = np.einsum("nas,n->sa", transition_matrix, gain) + action_penalty')),
+    M("solver-gets-wrong-mask", ["IFC-4b"],
+      (MC, "            absorbing_state_vec=mdp.absorbing_state_vec.astype(bool),", "            absorbing_state_vec=mdp.dead_end_state_vec.astype(bool),")),
+]
+TWINS["C16"] = [
+    TW("converged-rewritten", (MC, "converged=iterations < (self.max_iterations - 1),", "converged=iterations + 1 < self.max_iterations,")),
+    TW("converged-le", (MC, "converged=iterations < (self.max_iterations - 1),", "converged=iterations <= self.max_iterations - 2,")),
+]
+TWINS["C01"].append(TW("vi-converged-rewritten", (VI, """            converged=iterations < (self.max_iterations - 1),
+            initial_value=sum([state_values[s]*p for s, p in mdp.initial_state_dist().items()]),
+            policy=policy
+        )
+    
+    def _dict_plan_on""", """            converged=iterations + 1 < self.max_iterations,
+            initial_value=sum([state_values[s]*p for s, p in mdp.initial_state_dist().items()]),
+            policy=policy
+        )
+    
+    def _dict_plan_on""")))
+MUTANTS["C01"].append(M("pi-converged-off-by-one", ["BEL-5"], (PI, "converged=iterations < (self.max_iterations - 1),", "converged=iterations < self.max_iterations,")))
